@@ -1,10 +1,64 @@
-(* C04 -- Ballotbox emits only sound voteproofs.  Property theorems only. *)
+(* C04 -- Ballotbox emits only sound voteproofs.  Property theorems only.
+   Model: C04/Model.v, a transcription of isaac/states/ballotbox.go (after the fixes 1fd631b, fbc0fd9, 3e29325,
+   02be2ab), isaac/lastpoint.go, isaac.IsValidVoteproofWithSuffrage, base.IsValidVoteproof.
+   [emitted e ops v]: v is put on the Voteproof() channel by some step of the history [ops] -- ANY sequence of the
+   atomic steps Vote/VoteSignFact, countVoterecords of any record object (also through stale pointers), countHolded,
+   the deferred forward of an embedded voteproof, SetLastPoint, clean, a suffrage becoming known -- a superset of
+   all interleavings of concurrent callers; the Go map iteration order (which embedded voteproof, which expel set),
+   sync.Pool.Get and the wall clock are oracle arguments of the steps, universally quantified.
+   [input_ok]: what Ballot.IsValid(networkID) guarantees for ballots handed to Vote (no expel target twice, a
+   ballot with expels carries a voteproof, the embedded voteproof is well formed). *)
 From Coq Require Import ZArith List Bool String.
-From MV Require Import C04.Model C04.Proofs.
+From MV Require Import C04.Model C04.PSound C04.Proofs.
 From MV Require Gen.C04.
 Import ListNotations.
 Open Scope Z_scope.
 
-(* the constants the model hard-codes are those of the Go source (regenerated on every run) *)
-Theorem C04_consts : Gen.C04.max_threshold10 = 1000 /\ pf_get pfx = pf_new pfx /\ pf_new pfx = pf_clean pfx.
+(* the constants the model hard-codes are those of the Go source (regenerated on every run): MaxThreshold = 100,
+   and the key prefixes of voterecords / newVoterecords / clean agree and are not empty (used by every proof below:
+   sign facts "for that stage point" needs a record to be owned by one key) *)
+Theorem C04_consts :
+  Gen.C04.max_threshold10 = 1000 /\ pf_get pfx = pf_new pfx /\ pf_clean pfx = pf_new pfx /\ pf_new pfx <> EmptyString.
 Proof. exact consts_ok. Qed.
+
+(* It passes the same full validation other nodes apply: the structural part of Voteproof.IsValid and
+   isaac.IsValidVoteproofWithSuffrage with the suffrage of its height; and it consists of sign facts that were
+   voted, or is a voteproof that arrived embedded in a ballot. *)
+Theorem C04_passes_validation : forall e ops v,
+  Forall input_ok ops -> emitted e ops v ->
+  exists s, suffrage_of e v = Some s /\ vp_wellformed v = true /\ vp_valid_suf v s = true /\
+            ((forall sf, In sf (v_sfs v) -> In sf (voted_sfs ops)) \/ In v (embedded ops)).
+Proof. exact emitted_ok. Qed.
+
+(* It is for a stage point the ballotbox was voting on: it has sign facts, each of them was handed to
+   Vote/VoteSignFact and is for the voteproof's stage point -- or it is a voteproof carried by a ballot. *)
+Theorem C04_point_voted : forall e ops v,
+  Forall input_ok ops -> emitted e ops v ->
+  ((exists sf, In sf (v_sfs v)) /\
+   forall sf, In sf (v_sfs v) -> In sf (voted_sfs ops) /\ f_sp (sf_fact sf) = v_sp v) \/
+  In v (embedded ops).
+Proof. exact emitted_point_voted. Qed.
+
+(* It contains only sign facts for that stage point from distinct nodes of the suffrage (address and key). *)
+Theorem C04_signfacts_sound : forall e ops v,
+  Forall input_ok ops -> emitted e ops v ->
+  exists s, suffrage_of e v = Some s /\ NoDup (map sf_node (v_sfs v)) /\
+            forall sf, In sf (v_sfs v) ->
+              suf_exists_pub (sf_node sf) (sf_pub sf) s = true /\ f_sp (sf_fact sf) = v_sp v.
+Proof. exact emitted_signfacts. Qed.
+
+(* Its result equals a fresh recount of the votes it contains, with the quorum and threshold the validator uses
+   (its own threshold over the suffrage; 100% of the suffrage without the expelled nodes for an expel voteproof). *)
+Theorem C04_recount : forall e ops v,
+  Forall input_ok ops -> emitted e ops v -> v_kind v <> VStuck ->
+  exists s q th, suffrage_of e v = Some s /\ validator_count v s = Some (q, th) /\
+                 result_matches (tally q th (sf_ids (v_sfs v))) (v_maj v).
+Proof. exact emitted_recount. Qed.
+
+(* non-vacuity: a history satisfying input_ok that emits an expel voteproof with a majority *)
+Example C04_example_inputs : Forall input_ok x_ops.
+Proof. exact x_input_ok. Qed.
+Example C04_example :
+  exists v, emitted x_env x_ops v /\ v_kind v = VExpel /\ v_sp v = x_sp /\
+            option_map f_id (v_maj v) = Some 1 /\ map sf_node (v_sfs v) = [0; 1].
+Proof. exact x_emits. Qed.
